@@ -116,22 +116,31 @@ def cli_part(v, tier):
         expect_refused("file renamed")
         os.rename(os.path.join(ws.dir, files[1][:-4] + "x.sql"), os.path.join(ws.dir, files[1]))
         expect_valid("restore 2")
-        # import from golang-migrate format
-        src = os.path.join(ws.root, "gm")
-        os.makedirs(src)
-        open(os.path.join(src, "1_init.up.sql"), "w").write("CREATE TABLE t1 (id int);\n")
-        open(os.path.join(src, "1_init.down.sql"), "w").write("DROP TABLE t1;\n")
-        open(os.path.join(src, "2_more.up.sql"), "w").write("CREATE TABLE t2 (id int);\n")
-        dst = os.path.join(ws.root, "imp")
-        rc, out, err = ws.atlas("migrate", "import", "--from", "file://" + src + "?format=golang-migrate", "--to", "file://" + dst)
-        if rc != 0:
-            raise vf.Infra("migrate import failed: " + out + err)
-        n += 1
-        rc, out, err = ws.atlas("migrate", "validate", "--dir", "file://" + dst)
-        if rc == 0:
-            ok += 1
-        else:
-            v.violation({"part": "cli-writer", "writer": "migrate import"}, {"validate_rc": rc, "out": (out + err)[-400:]})
+        # `migrate import` from every third-party format (flyway incl. repeatable / baseline / undo files) leaves a valid directory
+        sources = {
+            "golang-migrate": {"1_init.up.sql": "CREATE TABLE t1 (id int);\n", "1_init.down.sql": "DROP TABLE t1;\n", "2_more.up.sql": "CREATE TABLE t2 (id int);\n"},
+            "flyway": {"V1__init.sql": "CREATE TABLE t1 (id int);\n", "V2__more.sql": "CREATE TABLE t2 (id int);\n", "V3__third.sql": "CREATE TABLE t3 (id int);\n",
+                       "R__views.sql": "CREATE VIEW v1 AS SELECT id FROM t1;\n", "R__a_first.sql": "CREATE VIEW v0 AS SELECT id FROM t2;\n", "U2__more.sql": "DROP TABLE t2;\n"},
+            "flyway-baseline": {"B2__base.sql": "CREATE TABLE t1 (id int);\nCREATE TABLE t2 (id int);\n", "V1__init.sql": "CREATE TABLE t1 (id int);\n", "V3__third.sql": "CREATE TABLE t3 (id int);\n", "R__z.sql": "CREATE VIEW v1 AS SELECT id FROM t1;\n"},
+            "goose": {"1_init.sql": "-- +goose Up\nCREATE TABLE t1 (id int);\n-- +goose Down\nDROP TABLE t1;\n", "2_more.sql": "-- +goose Up\nCREATE TABLE t2 (id int);\n"},
+            "dbmate": {"1_init.sql": "-- migrate:up\nCREATE TABLE t1 (id int);\n-- migrate:down\nDROP TABLE t1;\n", "2_more.sql": "-- migrate:up\nCREATE TABLE t2 (id int);\n-- migrate:down\nDROP TABLE t2;\n"},
+            "liquibase": {"1_init.sql": "--liquibase formatted sql\n--changeset a:1\nCREATE TABLE t1 (id int);\n--rollback DROP TABLE t1;\n", "2_more.sql": "--liquibase formatted sql\n--changeset a:2\nCREATE TABLE t2 (id int);\n"},
+        }
+        for fmt_, files in sources.items():
+            src = os.path.join(ws.root, "src_" + fmt_)
+            os.makedirs(src)
+            for name, body in files.items():
+                open(os.path.join(src, name), "w").write(body)
+            dst = os.path.join(ws.root, "imp_" + fmt_)
+            rc, out, err = ws.atlas("migrate", "import", "--from", "file://" + src + "?format=" + fmt_.replace("-baseline", ""), "--to", "file://" + dst)
+            if rc != 0:
+                raise vf.Infra("migrate import (%s) failed: %s" % (fmt_, out + err))
+            n += 1
+            rc, out, err = ws.atlas("migrate", "validate", "--dir", "file://" + dst)
+            if rc == 0:
+                ok += 1
+            else:
+                v.violation({"part": "cli-writer", "writer": "migrate import", "format": fmt_}, {"validate_rc": rc, "out": (out + err)[-400:], "files": sorted(os.listdir(dst))})
     finally:
         ws.close()
     return {"n": n, "ok": ok}
